@@ -370,3 +370,14 @@ def extra_evidence(tier, merged):
             sites |= set(c)
             total += len(c)
     return {"distinct_call_sites": len(sites), "call_instances_in_pool": total}
+
+
+def reductions(case):
+    if case["doc"] != 0:
+        yield dict(case, doc=0)
+    if case["target"] != "absent":
+        yield dict(case, target="absent")
+    if case["stub"] not in ("ok", "real_ok") and case["export"] != "write_rtf":
+        yield dict(case, stub="ok")
+    if case["fault"] is not None:
+        yield dict(case, fault=None)
